@@ -54,3 +54,38 @@ pub fn days_from_civil(y: i64, m: i64, d: i64) -> i64 {
     let doe = yoe * 365 + yoe / 4 - yoe / 100 + doy;
     era * 146_097 + doe - 719_468
 }
+
+pub const DAY_NS: i128 = 86_400_000_000_000;
+pub const MAX_INSTANT: i128 = 8_640_000_000_000_000_000_000;
+pub const TIME_UNITS: [&str; 6] = ["hour", "minute", "second", "millisecond", "microsecond", "nanosecond"];
+pub fn unit_ns(u: &str) -> i128 {
+    match u { "nanosecond" => 1, "microsecond" => 1_000, "millisecond" => 1_000_000, "second" => 1_000_000_000,
+              "minute" => 60_000_000_000, "hour" => 3_600_000_000_000, "day" => DAY_NS, _ => panic!("unit") }
+}
+pub fn unit_rank(u: &str) -> usize { ["nanosecond", "microsecond", "millisecond", "second", "minute", "hour", "day", "week", "month", "year"].iter().position(|x| *x == u).unwrap() }
+pub fn time_json(ns: i128) -> Value {
+    assert!((0..DAY_NS).contains(&ns));
+    let sod = ns / 1_000_000_000; let sub = ns % 1_000_000_000;
+    json!({"h": (sod / 3600) as i64, "mi": ((sod / 60) % 60) as i64, "s": (sod % 60) as i64, "ms": (sub / 1_000_000) as i64, "us": ((sub / 1000) % 1000) as i64, "ns": (sub % 1000) as i64})
+}
+/// an integer exactly representable as f64, magnitude <= cap: k * 2^e with k < 2^20
+pub fn exact_f64_int(r: &mut Rng, cap: i128) -> i128 {
+    if cap <= 0 { return 0; }
+    let k = r.range(0, (1 << 20) - 1) as i128;
+    let mut v = k;
+    let e = r.range(0, 70);
+    for _ in 0..e { if v * 2 > cap { break; } v *= 2; }
+    v.min(cap)
+}
+pub fn divisors(m: i64) -> Vec<i64> { (1..=m).filter(|d| m % d == 0).collect() }
+/// admissible rounding increments of a unit for time-of-day style rounding (divide the parent, exclusive)
+pub fn time_incs(u: &str) -> Vec<i64> {
+    let m = match u { "hour" => 24, "minute" | "second" => 60, _ => 1000 };
+    divisors(m).into_iter().filter(|d| *d < m).collect()
+}
+pub const MODES: [&str; 9] = ["ceil", "floor", "expand", "trunc", "halfCeil", "halfFloor", "halfExpand", "halfTrunc", "halfEven"];
+/// a remainder in [0, n) with exact multiples, ties and tie +- 1 over-sampled
+pub fn tie_biased_rem(r: &mut Rng, n: i128) -> i128 {
+    let v = match r.range(0, 9) { 0 => 0, 1 => 1, 2 => n / 2, 3 => n / 2 - 1, 4 => n / 2 + 1, 5 => n - 1, 6 => (n - 1) / 2, _ => r.range128(0, n - 1) };
+    v.clamp(0, n - 1)
+}
